@@ -262,6 +262,44 @@ func TestConcStoreBursts(t *testing.T) {
 				t.Fatalf("trial %d: %d concurrent %s requests on one id answered %v: not equivalent to any sequential order", trial, K, kind, codes)
 			}
 		}
+		// concurrent merges of disjoint entries into a fresh id: every acknowledged entry is there afterwards
+		{
+			httpDo(e, "DELETE", "/basic/v1/local-trust/f", "")
+			const K = 4
+			start := make(chan struct{})
+			codes := make([]int, K)
+			var wg sync.WaitGroup
+			for g := 0; g < K; g++ {
+				wg.Add(1)
+				go func(g int) {
+					defer wg.Done()
+					<-start
+					b := IMat{Size: K, Es: []Coo{{R: g, C: (g + 1) % K, V: JFloat(g + 1)}}}.json()
+					codes[g] = httpDo(e, "PUT", "/basic/v1/local-trust/f?merge=true", b).Code
+				}(g)
+			}
+			close(start)
+			wg.Wait()
+			created := 0
+			for _, c := range codes {
+				if c == 201 {
+					created++
+				} else if c != 200 {
+					t.Fatalf("trial %d: merge answered %v", trial, codes)
+				}
+			}
+			g := httpDo(e, "GET", "/basic/v1/local-trust/f", "")
+			var gb struct {
+				Entries []struct {
+					I, J int
+					V    float64
+				} `json:"entries"`
+			}
+			_ = json.Unmarshal([]byte(g.Body), &gb)
+			if created != 1 || len(gb.Entries) != K {
+				t.Fatalf("trial %d: %d concurrent merges into a fresh id answered %v but the stored matrix has %d entries (%s): acknowledged updates were lost", trial, K, codes, len(gb.Entries), g.Body)
+			}
+		}
 	}
 }
 
